@@ -66,3 +66,14 @@ Proof.
 Qed.
 Theorem dos_tok_len_refused tok : 65536 <= lenN tok -> dos_pack_tok tok = RErr 1.
 Proof. intros H. unfold dos_pack_tok. replace (N.leb 65536 (lenN tok)) with true by (symmetry; apply N.leb_le; lia). reflexivity. Qed.
+
+Theorem prodos_bin_roundtrip dat addr : addr < 65536 ->
+  exists f, prodos_pack_bin dat addr = ROk f /\ prodos_unpack_bin f = (addr, dat).
+Proof.
+  intros Ha. unfold prodos_pack_bin. destruct (N.ltb_spec 65535 addr) as [L|_]; [lia|].
+  eexists. split; [reflexivity|]. unfold prodos_unpack_bin. cbn [pf_aux pf_eof pf_chunks].
+  rewrite un_le16_le16 by exact Ha. rewrite sequence_desequence by lia.
+  unfold fimg_eof, takeN, lenN. rewrite Nat2N.id, firstn_all. reflexivity.
+Qed.
+Theorem prodos_bin_addr_refused dat addr : 65536 <= addr -> prodos_pack_bin dat addr = RErr 1.
+Proof. intros H. unfold prodos_pack_bin. destruct (N.ltb_spec 65535 addr); [reflexivity | lia]. Qed.
